@@ -49,3 +49,32 @@ func WithDeadlineCause(parent orig.Context, d time.Time, cause error) (orig.Cont
 func WithTimeoutCause(parent orig.Context, d time.Duration, cause error) (orig.Context, orig.CancelFunc) {
 	return WithTimeout(parent, d)
 }
+
+// AfterFunc mirrors context.AfterFunc: under a controlled run f runs in a
+// controlled thread once ctx is done (the standard library would start a
+// goroutine the scheduler cannot see).
+func AfterFunc(ctx orig.Context, f func()) (stop func() bool) {
+	if !vrt.Active() {
+		return orig.AfterFunc(ctx, f)
+	}
+	stopped := make(chan struct{})
+	ran := false
+	vrt.GoNamed("context.AfterFunc", func() {
+		var sel vrt.Select
+		vrt.AddRecv(&sel, ctx.Done())
+		vrt.AddRecv(&sel, (<-chan struct{})(stopped))
+		if sel.Wait() == 0 {
+			ran = true
+			f()
+		}
+	})
+	done := false
+	return func() bool {
+		if done || ran {
+			return false
+		}
+		done = true
+		close(stopped)
+		return true
+	}
+}
